@@ -307,6 +307,26 @@ Fixpoint move_ops (f g : fname) (s : sub) (us : uidl) (fls : list mfile) (ug : u
       end
   end.
 
+(* MailboxData.move with destination = source (the selected mailbox itself):
+   copy(), then delete([uid]) — the file is copied under a new key and uid, the
+   record added, the original file removed (its record stays until CHECK).
+   [names] alternates the new key and the temp name of each message. *)
+Fixpoint self_move_ops (f : fname) (s : sub) (u : uidl) (fls : list mfile)
+         (uids : list N) (names : list bytes) : list fsop :=
+  match uids with
+  | [] => []
+  | uid :: r =>
+      match locate u fls uid, names with
+      | Some (rec, x), key :: tmp :: names' =>
+          let u' := with_rec u (r_fields rec) (key ++ 58 :: m_info x) in
+          add_ops f s key (m_info x) (m_cid x) ++ locked_rewrite f tmp u'
+          ++ [OUnlink (PMsg f (m_sub x) (m_key x) (m_info x))]
+          ++ self_move_ops f s u' fls r names'
+      | Some _, _ => []
+      | None, _ => self_move_ops f s u fls r names
+      end
+  end.
+
 Definition store_ops (f : fname) (u : uidl) (fl : list mfile) (mode : smode)
            (letters : bytes) (uids : list N) : list fsop :=
   flat_map (fun uid =>
@@ -445,7 +465,10 @@ Definition run_cmd (lay : layout) (m : fs) (sel : selection) (c : cmd) : outcome
           | Some us =>
               if negb (exists_ m (PDir g)) then
                 {| o_ops := reset_ops f; o_ack := ANo; o_sel := sel |}
-              else if fname_eqb f g then unmodelled sel
+              else if fname_eqb f g then
+                {| o_ops := reset_ops f ++ reset_ops f
+                     ++ self_move_ops f (dest_sub sel f) us (files_of m f) uids tmps;
+                   o_ack := AOk; o_sel := sel |}
               else match ready m g with
               | None => unmodelled sel
               | Some ug =>
